@@ -31,6 +31,7 @@ def _leaf(fn):
 
 
 def run(ctx, obs):
+    scale_free_guards(ctx, obs)
     stale_masks(ctx, obs)
     from ..rules import sweeps
     sweeps.run(ctx, obs, 'C17')
@@ -314,3 +315,30 @@ def stale_masks(ctx, obs, rule='STALE-MASK'):
                         where(prog, f, bad[0]))
             else:
                 obs.ok(rule, q, con, f'{len(masked)} masked updates', where(prog, f, masked[0]))
+
+
+def scale_free_guards(ctx, obs, rule='SCALE-FREE'):
+    """cosine- and correlation-type measures are unchanged by positive scaling of either RDM, for every scale.  A guard that decides
+    from the NORM of a vector whether it takes part (zero vectors get similarity 0) must therefore compare with exactly zero: any
+    absolute threshold (machine epsilon, 1e-12 ...) turns genuinely non-zero but small-valued RDMs (data in SI units) into zeros."""
+    prog = ctx.prog
+    q = 'rdm.compare._cosine'
+    f = prog.func(q)
+    r = ctx.dep.result(q)
+    inl = Inliner(r, None, tuple(f.params))
+    n = 0
+    for c in ast.walk(f.node):
+        if isinstance(c, ast.Compare) and len(c.ops) == 1 and isinstance(c.ops[0], (ast.Gt, ast.GtE, ast.Lt, ast.LtE, ast.NotEq, ast.Eq)):
+            left = inl.inline(c.left)
+            is_norm = any(isinstance(x, ast.Call) and _leaf(x.func) in ('sqrt', 'norm') for x in ast.walk(left)) or \
+                any(isinstance(x, ast.Call) and _leaf(x.func) == 'einsum' for x in ast.walk(left))
+            if not is_norm:
+                continue
+            n += 1
+            rhs = inl.inline(c.comparators[0])
+            zero = isinstance(rhs, ast.Constant) and rhs.value == 0
+            obs.check(zero, rule, q, 'vectors are excluded only if their norm is exactly zero',
+                      f'`{norm(c)}` compares the norm with `{ast.unparse(rhs)[:40]}`: an absolute threshold makes the similarity depend on '
+                      f'the overall scale of the dissimilarities (tiny but non-zero RDMs get similarity 0)', '', where(prog, f, c))
+    if n == 0:
+        obs.unk(rule, q, 'zero-norm guard', 'no comparison of a norm found', where(prog, f, f.node))
